@@ -119,7 +119,12 @@ EpochMonotone == \A i, j \in 1..Len(wire) : i < j => wire[i][1] <= wire[j][1]
 (* receive side: genuine records 1..NRecv of the peer's current epoch; record 0 (Finished) accepted *)
 
 Genuine == 1..NRecv
-Fresh(s) == (s <= latest => latest - s < W) /\ s \notin seen
+\* the window the replay detector really uses: the configured size rounded up to whole 64-bit words (the "fix:" commit
+\* that works around the detector's bitmap losing the upper bits of a partially used word; a configured window of
+\* 33..63, 97..127, ... let records inside the window be accepted twice).  The properties below speak about the
+\* CONFIGURED window.
+Eff(x) == ((x + 63) \div 64) * 64
+Fresh(s) == (s <= latest => latest - s < Eff(W)) /\ s \notin seen
 
 \* the genuine record s arrives (again)
 ArriveGenuine(s) ==
